@@ -521,85 +521,83 @@ theorem describe_reach :
       | (exact just_of_items (itemJ_tupArr _ _ _ _ _ _) ‹_› hr m hm)
       | (exact just_of_items (itemJ_tupTup _ _ _ _ _ _ _ ‹_›) ‹_› hr m hm)
       | skip)
-  -- a user alias (`.variant [t]`): the description of the resolved type, entered silently
-  case case1 =>
-    rename_i o a p t ih
-    obtain ⟨s, x, a', hp, hreach, hloc⟩ := ih r hr m hm
-    have hr' : Reach t a false s x a' := by simpa [isOptional] using hreach
-    exact ⟨s, x, a', hp, .silent (xs := [Atom.ty t] ++ (if isOptional o then [Atom.ty .undef] else [])) (by simp [members])
-      (by simp) hr', hloc⟩
-  -- the Optional arm
-  case case36 =>
-    rename_i ih
-    obtain ⟨s, x, a', hp, hreach, hloc⟩ := ih r (by simpa using hr) m hm
-    exact ⟨s, x, a', hp, .opt hreach, hloc⟩
-  -- descAll
-  case case43 => intro r hr m hm; simp [descAll] at hr; subst hr; cases hm
-  case case44 =>
-    rename_i ih
-    intro r hr m hm
-    simp only [descAll] at hr
-    obtain ⟨x, y, hx, hy, rfl⟩ := Res.append_eq_ok hr
-    simp only [Res.ok.injEq] at hx; subst hx
-    rcases List.mem_append.mp hm with hm | hm
-    · simp only [List.mem_singleton] at hm; subst hm; exact .inl List.mem_cons_self
-    · exact M2_lift (ih y hy m hm)
-  case case45 =>
-    rename_i h ih
-    intro r hr m hm
-    simp only [descAll, h, if_true] at hr
-    exact M2_lift (ih r hr m hm)
-  case case46 =>
-    rename_i h ih2 ih1
-    intro r hr
-    simp only [descAll, h, if_false, Bool.false_eq_true] at hr
-    exact M2_sub ih2 ih1 hr
-  case case47 =>
-    rename_i ih2 ih1
-    intro r hr
-    simp only [descAll] at hr
-    exact M2_sub ih2 ih1 hr
-  -- descVar
-  case case48 => rename_i h; intro ds hds; simp [descVar, h] at hds
-  case case49 =>
-    rename_i i a p h
-    intro ds hds m hm
-    simp only [descVar, h, if_true, if_false, Bool.false_eq_true, VRes.acc.injEq] at hds
-    subst hds
-    simp only [List.mem_singleton] at hm; subst hm
-    exact ⟨0, .ty .undef, [], .ty .undef, a, by simp, by simp [Mismatch.path], .inl ⟨_, rfl, .refl _ _ _⟩, by simp [Local, Mismatch.kk, Mismatch.cls]⟩
-  case case50 => rename_i h; intro ds hds m hm; simp [descVar, h] at hds; subst hds; cases hm
-  case case51 => rename_i h; intro ds hds; simp [descVar, h] at hds
-  case case52 =>
-    rename_i u i a p t xs h ih2 ih1
-    intro ds hds m hm
-    simp only [descVar, h, if_false, Bool.false_eq_true] at hds
-    obtain ⟨x, y, hx, hy, rfl⟩ := VRes.cons_eq_acc hds
-    rcases List.mem_append.mp hm with hm | hm
-    · obtain ⟨s, x', a', hp, hreach, hloc⟩ := ih2 x hx m hm
-      exact ⟨0, .ty t, s, x', a', by simp, by simp [hp], .inl ⟨t, rfl, hreach.oc_irrelevant⟩, hloc⟩
-    · obtain ⟨j, y', s, x', a', hj, hp, hreach, hloc⟩ := ih1 y hy m hm
-      exact ⟨j + 1, y', s, x', a', by simpa using hj, by rw [hp]; congr 3; omega, hreach, hloc⟩
-  case case53 =>
-    rename_i hno h
-    intro ds hds
-    rw [descVar] at hds
-    · simp [h] at hds
-    · exact hno
-  case case54 =>
-    rename_i u i a p x xs hno h ih1
-    intro ds hds m hm
-    rw [descVar] at hds
-    · simp only [h, if_false, Bool.false_eq_true] at hds
-      obtain ⟨x0, y, hx, hy, rfl⟩ := VRes.cons_eq_acc hds
-      simp only [Res.ok.injEq] at hx; subst hx
-      rcases List.mem_append.mp hm with hm | hm
-      · simp only [List.mem_singleton] at hm; subst hm
-        exact ⟨0, x, [], x, a, by simp, by simp [Mismatch.path], .inr ⟨fun t ht => hno t ht, rfl, rfl, rfl⟩,
-          by simp [Local, Mismatch.kk, Mismatch.cls]⟩
-      · obtain ⟨j, y', s, x', a', hj, hp, hreach, hloc⟩ := ih1 y hy m hm
-        exact ⟨j + 1, y', s, x', a', by simpa using hj, by rw [hp]; congr 3; omega, hreach, hloc⟩
-    · exact hno
+  -- the remaining cases, told apart by the shape of the goal (not by their number: a new `Ty` constructor renumbers them)
+  all_goals first
+    | (rename_i o a p t ih
+       obtain ⟨s, x, a', hp, hreach, hloc⟩ := ih r hr m hm
+       have hr' : Reach t a false s x a' := by simpa [isOptional] using hreach
+       exact ⟨s, x, a', hp, .silent (xs := [Atom.ty t] ++ (if isOptional o then [Atom.ty .undef] else [])) (by simp [members])
+         (by simp) hr', hloc⟩
+       done)
+    | (rename_i ih
+       obtain ⟨s, x, a', hp, hreach, hloc⟩ := ih r (by simpa using hr) m hm
+       exact ⟨s, x, a', hp, .opt hreach, hloc⟩
+       done)
+    | (intro r hr m hm; simp [descAll] at hr; subst hr; cases hm; done)
+    | (rename_i ih
+       intro r hr m hm
+       simp only [descAll] at hr
+       obtain ⟨x, y, hx, hy, rfl⟩ := Res.append_eq_ok hr
+       simp only [Res.ok.injEq] at hx; subst hx
+       rcases List.mem_append.mp hm with hm | hm
+       · simp only [List.mem_singleton] at hm; subst hm; exact .inl List.mem_cons_self
+       · exact M2_lift (ih y hy m hm)
+       done)
+    | (rename_i h ih
+       intro r hr m hm
+       simp only [descAll, h, if_true] at hr
+       exact M2_lift (ih r hr m hm)
+       done)
+    | (rename_i h ih2 ih1
+       intro r hr
+       simp only [descAll, h, if_false, Bool.false_eq_true] at hr
+       exact M2_sub ih2 ih1 hr
+       done)
+    | (rename_i ih2 ih1
+       intro r hr
+       simp only [descAll] at hr
+       exact M2_sub ih2 ih1 hr
+       done)
+    | (rename_i h; intro ds hds; simp [descVar, h] at hds; done)
+    | (rename_i i a p h
+       intro ds hds m hm
+       simp only [descVar, h, if_true, if_false, Bool.false_eq_true, VRes.acc.injEq] at hds
+       subst hds
+       simp only [List.mem_singleton] at hm; subst hm
+       exact ⟨0, .ty .undef, [], .ty .undef, a, by simp, by simp [Mismatch.path], .inl ⟨_, rfl, .refl _ _ _⟩, by simp [Local, Mismatch.kk, Mismatch.cls]⟩
+       done)
+    | (rename_i h; intro ds hds m hm; simp [descVar, h] at hds; subst hds; cases hm; done)
+    | (rename_i h; intro ds hds; simp [descVar, h] at hds; done)
+    | (rename_i u i a p t xs h ih2 ih1
+       intro ds hds m hm
+       simp only [descVar, h, if_false, Bool.false_eq_true] at hds
+       obtain ⟨x, y, hx, hy, rfl⟩ := VRes.cons_eq_acc hds
+       rcases List.mem_append.mp hm with hm | hm
+       · obtain ⟨s, x', a', hp, hreach, hloc⟩ := ih2 x hx m hm
+         exact ⟨0, .ty t, s, x', a', by simp, by simp [hp], .inl ⟨t, rfl, hreach.oc_irrelevant⟩, hloc⟩
+       · obtain ⟨j, y', s, x', a', hj, hp, hreach, hloc⟩ := ih1 y hy m hm
+         exact ⟨j + 1, y', s, x', a', by simpa using hj, by rw [hp]; congr 3; omega, hreach, hloc⟩
+       done)
+    | (rename_i hno h
+       intro ds hds
+       rw [descVar] at hds
+       · simp [h] at hds
+       · exact hno
+       done)
+    | (rename_i u i a p x xs hno h ih1
+       intro ds hds m hm
+       rw [descVar] at hds
+       · simp only [h, if_false, Bool.false_eq_true] at hds
+         obtain ⟨x0, y, hx, hy, rfl⟩ := VRes.cons_eq_acc hds
+         simp only [Res.ok.injEq] at hx; subst hx
+         rcases List.mem_append.mp hm with hm | hm
+         · simp only [List.mem_singleton] at hm; subst hm
+           exact ⟨0, x, [], x, a, by simp, by simp [Mismatch.path], .inr ⟨fun t ht => hno t ht, rfl, rfl, rfl⟩,
+             by simp [Local, Mismatch.kk, Mismatch.cls]⟩
+         · obtain ⟨j, y', s, x', a', hj, hp, hreach, hloc⟩ := ih1 y hy m hm
+           exact ⟨j + 1, y', s, x', a', by simpa using hj, by rw [hp]; congr 3; omega, hreach, hloc⟩
+       · exact hno
+       done)
 end
 
 end Pcore.Desc
